@@ -457,9 +457,13 @@ def interrupt_clause(ctx, tick):
         isinstance(c, ast.Call) and (dotted(c.func) or '') in (
             'self.get_current_instruction', 'self.get_instruction_at')
         for c in ast.walk(n.ast))]
+    from ..astutil import local_defs
+    handler_vars = {name for name, ds in local_defs(tick.node).items()
+                    if any(k == 'assign' and isinstance(v, ast.Call) and
+                           dotted(v.func) == 'getattr' for k, v in ds)}
     dispatch = [n for n in cfg.nodes if n.kind == 'stmt' and any(
         isinstance(c, ast.Call) and isinstance(c.func, ast.Name) and
-        c.func.id == 'func' for c in ast.walk(n.ast))]
+        c.func.id in handler_vars for c in ast.walk(n.ast))]
     if not fetch or not dispatch:
         raise AnalysisError('anchor vanished: fetch/dispatch in tick')
     for n in fetch + dispatch:
@@ -657,7 +661,7 @@ def partial_ops(ctx, reach):
             if kind is None:
                 continue
             n += 1
-            construct = f'{f.file}:{f.qualname}:{kind[0]}:{unparse(node)[:40]}'
+            construct = f'{f.file}:{f.qualname}:{kind[0]}'
             if f.qualname.startswith('QvmCpu._exec_conv_'):
                 # one report for the whole generated family
                 construct = f'{f.file}:conv-family:{kind[0]}'
